@@ -90,7 +90,8 @@ static void print_state(FILE * f) {
         scpi_error_t * e = &eq[(rd + i) % ctx.error_queue.size];
         fprintf(f, "%s[%d,", i ? "," : "", (int) e->error_code);
         print_text(f, e->device_dependent_info);
-        fprintf(f, ",%ld]", e->device_dependent_info ? (long) (e->device_dependent_info - heap) : -1L);
+        fprintf(f, ",%ld]", !e->device_dependent_info ? -1L :
+                (e->device_dependent_info >= heap && e->device_dependent_info < heap + hsize) ? (long) (e->device_dependent_info - heap) : -2L);
     }
     fprintf(f, "],\"wr\":%ld,\"count\":%ld,\"data\":", (long) ctx.error_info_heap.wr, (long) ctx.error_info_heap.count);
     print_bytes(f, heap, (size_t) hsize);
@@ -180,9 +181,9 @@ static char * state_str(void) {
     fclose(m);
     return buf;
 }
-static void describe(const char * from, const op_t * o) {
+static void describe(const char * from, const op_t * o, long loc) {
     FILE * m = fmemopen(curdesc, sizeof curdesc, "w");
-    fprintf(m, "{\"size\":%d,\"cap\":%d,\"f\":%s,\"op\":", hsize, cap, from);
+    fprintf(m, "{\"loc\":%ld,\"size\":%d,\"cap\":%d,\"f\":%s,\"op\":", loc, hsize, cap, from);
     print_op(m, o);
     fputs("}", m);
     fclose(m);
@@ -249,6 +250,13 @@ static int explore(long maxstates, const char * outpath, int ncodes, char ** cod
     int complete = 1;
     if (hsize > XHEAP) { fprintf(stderr, "explore: heap too large\n"); return 3; }
     make_alphabet(ncodes, codes);
+    snprintf(p2, sizeof p2, "%s.ops", outpath);
+    fo = fopen(p2, "w");
+    for (i = 0; i < nops; i++) print_op_plain(fo, &ops[i]);
+    fclose(fo);
+    snprintf(p2, sizeof p2, "%s.tree", outpath);
+    tree = fopen(p2, "w");
+    fprintf(tree, "-1 -1\n");
     states = calloc((size_t) maxstates + 1, sizeof(snap_t));
     parent = calloc((size_t) maxstates + 1, sizeof(int));
     pop = calloc((size_t) maxstates + 1, sizeof(int));
@@ -267,7 +275,7 @@ static int explore(long maxstates, const char * outpath, int ncodes, char ** cod
         for (j = 0; j < nops; j++) {
             unsigned h;
             restore(&states[head]);
-            describe(from, &ops[j]);
+            describe(from, &ops[j], head);
             apply(&ops[j]);
             record(f, from, &ops[j], head);
             ntrans++;
@@ -278,21 +286,16 @@ static int explore(long maxstates, const char * outpath, int ncodes, char ** cod
                 if (nstates >= maxstates) { complete = 0; continue; }
                 hkeys[nstates] = k; hidx[h] = (int) nstates;
                 parent[nstates] = (int) head; pop[nstates] = j;
+                fprintf(tree, "%ld %d\n", head, j);
                 take(&states[nstates]);
                 nstates++;
             }
         }
         head++;
+        fflush(f); fflush(tree);        /* what was recorded survives a sanitizer stop */
     }
     fclose(f);
-    snprintf(p2, sizeof p2, "%s.tree", outpath);
-    tree = fopen(p2, "w");
-    for (i = 0; i < nstates; i++) fprintf(tree, "%d %d\n", parent[i], pop[i]);
     fclose(tree);
-    snprintf(p2, sizeof p2, "%s.ops", outpath);
-    fo = fopen(p2, "w");
-    for (i = 0; i < nops; i++) print_op_plain(fo, &ops[i]);
-    fclose(fo);
     printf("{\"concrete_states\":%ld,\"transitions\":%ld,\"complete\":%s,\"alphabet\":%d}\n", nstates, ntrans, complete ? "true" : "false", nops);
     return 0;
 }
@@ -336,7 +339,7 @@ static int walk(unsigned long seedv, long steps, const char * outpath, long dump
             for (j = 0; j < since && j < 4096; j++) print_op_plain(stdout, &log[j]);
             return since <= 4096 ? 0 : 4;
         }
-        describe(from, &o);
+        describe(from, &o, i);
         apply(&o);
         record(f, from, &o, i);
         if (rnd() % 1500 == 0) { fresh(); since = 0; }
@@ -364,7 +367,7 @@ static int path(const char * opsfile, const char * outpath) {
         else { fprintf(stderr, "bad op %s\n", a); return 3; }
         if (o.len > hsize + 8) o.len = hsize + 8;
         strcpy(from, state_str());
-        describe(from, &o);
+        describe(from, &o, i);
         apply(&o);
         record(f, from, &o, i++);
     }
